@@ -829,7 +829,11 @@ def gen_contract(rng, cx=False):
           ("i,ij,j->", [(2,), (2, 3), (3,)]), ("ijj->i", [(2, 3, 3)]), ("iij->j", [(3, 3, 2)]), ("ij,ij->", [(2, 3), (2, 3)]), ("ij,j->i", [(1, 3), (3,)]),
           ("ij,ij->ij", [(1, 3), (2, 3)]), ("ij,ij->ij", [(2, 1), (2, 3)]), ("...ij,...ij->...ij", [(1, 2, 3), (4, 2, 3)]), ("a,b,c->abc", [(2,), (3,), (2,)]),
           ("ijk->kji", [(2, 3, 4)]), ("ijkl,klmn->ijmn", [(2, 2, 2, 3), (2, 3, 2, 2)]), ("i->", [(3,)]), ("->", [()]), (",->", [(), ()]), (",i->i", [(), (3,)]),
-          ("ij , jk -> ik", [(2, 3), (3, 4)]), ("ii->i", [(1, 1)]), ("ij,kj->ik", [(2, 3), (4, 3)])]
+          ("ij , jk -> ik", [(2, 3), (3, 4)]), ("ii->i", [(1, 1)]), ("ij,kj->ik", [(2, 3), (4, 3)]),
+          # an operand broadcast over two or more ellipsis dimensions (leading, trailing, both)
+          ("i...,i...->i...", [(3,), (3, 2, 4)]), ("i...,i...->i...", [(3, 2, 4), (3,)]), ("...i,...i->...i", [(3,), (2, 4, 3)]), ("...i,...i->...i", [(2, 4, 3), (3,)]),
+          ("...,...->...", [(), (2, 3, 2)]), ("i...j,i...j->i...j", [(3, 2), (3, 2, 4, 2)]), ("i...,i...->i...", [(3, 1, 4), (3, 2, 4)]), ("i...,i...->i...", [(3, 3), (3, 3, 3)]),
+          ("i...,i...->...", [(3,), (3, 3, 3)]), ("...i,...i->...", [(3,), (3, 3, 3)])]
     for (subs, shapes) in ES:
         nops = len(shapes)
         cmixes = [tuple([False] * nops)] if not cx else [tuple([True] * nops)] + ([tuple([i == 0 for i in range(nops)]), tuple([i != 0 for i in range(nops)])] if nops > 1 else [])
@@ -837,6 +841,29 @@ def gen_contract(rng, cx=False):
             for argnum in range(nops):
                 ops = [A(rng, s, "any", c) for s, c in zip(shapes, cm)]
                 yield case("einsum", [subs] + ops, argnum=argnum + 1)
+    # every string form again through the (operand, sublist, ..., sublistout) interface
+    def _term(t):
+        out = []
+        t = t.replace(" ", "")
+        while t:
+            if t.startswith("..."):
+                out.append(Ellipsis)
+                t = t[3:]
+            else:
+                out.append(ord(t[0]) - ord("a"))
+                t = t[1:]
+        return out
+
+    for (subs, shapes) in ES:
+        lhs, arrow, rhs = subs.replace(" ", "").partition("->")
+        terms = lhs.split(",")
+        for argnum in range(len(shapes)):
+            args = []
+            for sh, t in zip(shapes, terms):
+                args += [A(rng, sh, "any", cx), _term(t)]
+            if arrow:
+                args.append(_term(rhs))
+            yield case("einsum", args, argnum=2 * argnum, tags=["sublist", "from_string"] + ([] if arrow else ["no_sublistout"]))
     # einsum sublist form
     SUB = [([(2, 3), [0, 1], (3, 4), [1, 2]], [0, 2]), ([(2, 3), [0, 1], (3, 4), [1, 2]], None), ([(3, 3), [0, 0]], [0]), ([(2, 3), [0, 1]], [1, 0]),
            ([(2, 2, 3), [Ellipsis, 0, 1], (2, 3, 2), [Ellipsis, 1, 2]], [Ellipsis, 0, 2]), ([(2, 2, 3), [0, Ellipsis, 1], (3,), [1]], [0, Ellipsis]),
